@@ -7,6 +7,7 @@ import (
 	"encoding/hex"
 	"io"
 	"net/http"
+	"strconv"
 	"strings"
 	"time"
 
@@ -170,4 +171,88 @@ func VerifC17SignedDelivery() {
 		okBody = sentBody[0] == body[0] && sentBody[1] == body[1]
 	}
 	vrt.Assert("C07.push.body-sent-is-the-signed-body", okBody)
+}
+
+// verif:harness props=C17 tier=quick weight=25
+// verif:bounds one signed delivery under a clock that ADVANCES between readings (every reading later than the one before: +0 s, +1 ns across a second boundary, +2 s); 2 secret versions with arbitrary windows; fixed path and a 1-byte symbolic body; SHA-256 and HMAC as uninterpreted functions; (*http.Client).Do is a havoc stub
+func VerifC17OneSigningInstant() {
+	readings := [][]time.Time{
+		{time.Unix(1700000000, 5), time.Unix(1700000000, 5), time.Unix(1700000000, 5)},
+		{time.Unix(1700000000, 999999999), time.Unix(1700000001, 0), time.Unix(1700000001, 1)},
+		{time.Unix(1700000000, 0), time.Unix(1700000002, 0), time.Unix(1700000004, 0)},
+	}[vrt.Choose("clock", 3)]
+	stamps := []string{"1700000000", "1700000001", "1700000002", "1700000004"}
+	body := vrt.BytesN("body", 1)
+	cfg := &HMACSigningConfig{SignatureHeader: "X-Sig", TimestampHeader: "X-Ts"}
+	keys := []string{"k0", "k1"}
+	for i := 0; i < 2; i++ {
+		v := HMACSigningSecretVersion{ID: []string{"a", "b"}[i], Ref: "raw:" + keys[i], ValidFrom: vrt.Time("from")}
+		v.HasUntil = vrt.Bool("has-until")
+		if v.HasUntil {
+			v.ValidUntil = vrt.Time("until")
+		}
+		cfg.SecretVersions = append(cfg.SecretVersions, v)
+	}
+	d := NewHTTPDeliverer(&http.Client{}, EgressPolicy{})
+	calls := 0
+	d.Now = func() time.Time {
+		t := readings[len(readings)-1]
+		if calls < len(readings) {
+			t = readings[calls]
+		}
+		calls++
+		return t
+	}
+	res := d.Deliver(context.Background(), Delivery{URL: "https://t.example.com/hook", Body: body, Header: http.Header{}, Sign: cfg})
+	pickAt := func(now time.Time) int {
+		valid := [2]bool{}
+		for i, v := range cfg.SecretVersions {
+			valid[i] = !now.Before(v.ValidFrom) && (!v.HasUntil || now.Before(v.ValidUntil))
+		}
+		switch {
+		case valid[0] && valid[1]:
+			if cfg.SecretVersions[1].ValidFrom.After(cfg.SecretVersions[0].ValidFrom) {
+				return 1
+			}
+			return 0
+		case valid[0]:
+			return 0
+		case valid[1]:
+			return 1
+		}
+		return -1
+	}
+	sent := vrt.HTTPRequests()
+	if len(sent) == 0 {
+		// refusing is right only if at some instant the clock showed no version was valid
+		none := false
+		for _, t := range readings {
+			none = none || pickAt(t) < 0
+		}
+		vrt.Assert("C17.instant.nothing-sent-only-when-no-version-is-valid", none && res.Err != nil)
+		return
+	}
+	vrt.Cover("instant.sent")
+	req := sent[0]
+	ts, sig := req.Header.Get("X-Ts"), req.Header.Get("X-Sig")
+	sum := vrt.SHA256(body)
+	// the timestamp that is signed and the instant at which the version was valid are ONE clock reading
+	consistent := false
+	for _, t := range readings {
+		want := ""
+		for _, s := range stamps {
+			if s == strconv.FormatInt(t.Unix(), 10) {
+				want = s
+			}
+		}
+		p := pickAt(t)
+		if p < 0 || ts != want {
+			continue
+		}
+		mac := vrt.HMACSHA256([]byte(keys[p]), []byte("POST\n/hook\n"+want+"\n"+hex.EncodeToString(sum[:])))
+		if sig == hex.EncodeToString(mac[:]) {
+			consistent = true
+		}
+	}
+	vrt.Assert("C17.instant.signed-timestamp-and-version-validity-are-one-clock-reading", consistent)
 }
